@@ -321,6 +321,10 @@ func runC07(p *Prog, r *Result) {
 	checkOffsetBase(p, r, p.Pkg("syntax"), "R07d")
 	r.Rule("R07f", "rune() moves the cursor one past the buffer whenever it answers the end-of-input sentinel, whether or not the buffer is empty: end positions do not depend on whether the last bytes arrived together with io.EOF", 1)
 	checkEOFCursor(p, r, p.Pkg("syntax"), "R07f")
+	r.Rule("R07g", "a multi-byte rune cut by the end of a read is completed whatever its length: the refill on rune()'s decoding path is decided by utf8.FullRune, or by a length that can reach utf8.UTFMax", 1)
+	checkPartialRuneCompleted(p, r, p.Pkg("syntax"), "R07g")
+	r.Rule("R07h", "the literal being read never shares storage with the read buffer, which fill() slides and overwrites: every store to litBs is nil, a slice of litBuf/litBs or an append onto one", 10)
+	checkLiteralOwnsItsBytes(p, r, p.Pkg("syntax"), "R07h")
 	r.Rule("R07e", "a field fill() increments on an empty read and compares with a limit is set back to zero when a read returns bytes (shared with C08)", 0)
 	if n := checkRetryCounterReset(p, r, p.Pkg("syntax"), "R07e"); n == 0 {
 		r.Notef("R07e: fill() keeps no count of empty reads on this tree (it retries forever on a reader that returns (0, nil)); the rule is armed by a control")
@@ -569,6 +573,11 @@ func onFillCycle(g *FGraph, b *FBlock, info *types.Info, fillFn *types.Func) boo
 }
 
 var c07Controls = []Control{
+	{Name: "literal-aliases-the-read-buffer", Rule: "R07h", WantKey: "newLit#store 3 to litBs", File: "syntax/lexer.go",
+		Mutate: ctlReplaceAnywhere("p.litBs = append(p.litBuf[:0], p.bs[p.bsp-uint(p.w):p.bsp]...)", "p.litBs = p.bs[p.bsp-uint(p.w) : p.bsp]")},
+	{Name: "cut-rune-completed-up-to-three-bytes", Rule: "R07g", WantKey: "rune#a rune cut by the end of a read is completed", File: "syntax/lexer.go",
+		Mutate: ctlChain(ctlReplaceAnywhere("\tif p.r == utf8.RuneError && !utf8.FullRune(p.bs[p.bsp:]) {\n", "\tif p.r == utf8.RuneError && w == 1 && len(p.bs)-int(p.bsp) < seqLen(p.bs[p.bsp]) {\n"),
+			ctlAppendDecl("func seqLen(first byte) int {\n\tswitch {\n\tcase first&0xe0 == 0xc0:\n\t\treturn 2\n\tcase first&0xf0 == 0xe0:\n\t\treturn 3\n\t}\n\treturn 1\n}\n"))},
 	{Name: "eof-cursor-only-when-buffer-empty", Rule: "R07f", WantKey: "rune#the end-of-input cursor does not depend", File: "syntax/lexer.go",
 		Mutate: ctlReplaceAnywhere("\t\tp.bsp = uint(len(p.bs)) + 1\n\t\tp.r = runeEOF\n", "\t\tif len(p.bs) == 0 {\n\t\t\tp.bsp = 1\n\t\t}\n\t\tp.r = runeEOF\n")},
 	{Name: "empty-read-count-never-reset", Rule: "R07e", WantKey: "fill#emptyReads counts consecutive empty reads", File: "syntax/lexer.go",
